@@ -37,3 +37,38 @@ package zitiql
 //@   assume offendingSymbol == nil || ref(offendingSymbol) != 0
 //@   modifies el.Errors
 //@   ensures[recorded] len(el.Errors) == old(len(el.Errors)) + 1
+
+// ---------------------------------------------------------------------------
+// String literals (C11). escChar(c): how the byte c is written inside a literal (backslash and quote escaped,
+// \f \n \r \t for the four control characters the grammar cannot take raw); escFrom(s, i): the literal body of s[i:].
+// ---------------------------------------------------------------------------
+//@ spec escChar(c Int) Str = (ite (= c 92) (str_concat (byte1 92) (byte1 92)) (ite (= c 34) (str_concat (byte1 92) (byte1 34)) (ite (= c 12) (str_concat (byte1 92) (byte1 102)) (ite (= c 10) (str_concat (byte1 92) (byte1 110)) (ite (= c 13) (str_concat (byte1 92) (byte1 114)) (ite (= c 9) (str_concat (byte1 92) (byte1 116)) (byte1 c)))))))
+//@ spec escFrom(s Str, i Int) Str
+//@ axiom escFrom_done: (forall ((s Str) (i Int)) (! (=> (>= i (str_len s)) (= (escFrom s i) str_empty)) :pattern ((escFrom s i))))
+//@ axiom escFrom_step: (forall ((s Str) (i Int)) (! (=> (and (<= 0 i) (< i (str_len s))) (= (escFrom s i) (str_concat (escChar (str_at s i)) (escFrom s (+ i 1))))) :pattern ((escFrom s i) (str_at s i))))
+// unquote(x): x without one leading and one trailing double quote
+//@ define unquote1(x) = ite(1 <= len(x) && str_sub(x, 0, 1) == "\"", str_sub(x, 1, len(x)), x)
+//@ define unquote2(x) = ite(1 <= len(x) && str_sub(x, len(x) - 1, len(x)) == "\"", str_sub(x, 0, len(x) - 1), x)
+//@ func ParseZqlString
+//@   props C11
+//@   pure
+//@   ensures[denotes-the-escaped-string] forallStr(s, unquote2(unquote1(text)) == escFrom(s, 0) ==> result == s, escFrom(s, 0))
+//@   invariant 1: 0 <= i && i <= len(t) && t == unquote2(unquote1(text)) && forallStr(s, t == escFrom(s, 0) ==> len(buf) <= len(s) && str_sub(t, i, len(t)) == escFrom(s, len(buf)) && str(buf) == str_sub(s, 0, len(buf)) && (len(buf) < len(s) ==> str_at(s, len(buf)) >= 0), escFrom(s, 0))
+// the literal of a string, and the two lemmas: it denotes the string; different strings have different literals
+//@ func verifLiteral
+//@   props C11
+//@   pure
+//@   ensures[quoted-escaped-body] result == str_concat("\"", str_concat(escFrom(s, 0), "\""))
+//@   invariant 1: 0 <= i && i <= len(s) && str_concat(str(out), escFrom(s, i)) == str_concat("\"", escFrom(s, 0))
+//@ func verifEscapeByte
+//@   props C11
+//@   pure
+//@   ensures[one-byte-escaped] result != nil && str(result) == escChar(c)
+//@ func verifRoundTripLiteral
+//@   props C11
+//@   pure
+//@   ensures[literal-denotes-its-string] result == s
+//@ func verifLiteralInjective
+//@   props C11
+//@   pure
+//@   ensures[different-strings-different-literals] result ==> a == b
